@@ -227,7 +227,7 @@ def build(repo=REPO, force=False, canary=None, verify_only=None, quiet=False, ex
         fails, tool = classify(v['diags'], asm)
         # a construct Verus cannot translate inside ONE function must not make every property undecided: such units are
         # re-emitted as external_body (recorded in auto_external; any property whose scope contains one of them is exit 2)
-        auto_external = {}
+        auto_external = dict(asm.get('lost_anchors') or {})
         for _round in range(4):
             culprits = {}
             for t in tool:
@@ -242,6 +242,7 @@ def build(repo=REPO, force=False, canary=None, verify_only=None, quiet=False, ex
             auto_external.update(culprits)
             for pth, why in auto_external.items(): sp.external[pth] = 'AUTO: ' + why
             asm = gen.assemble(repo, sp, rows=rows_mod, canary=canary, opts=dict(prelude_files=pre, known_units=KNOWN_UNITS()))
+            auto_external.update(asm.get('lost_anchors') or {})
             open(gpath, 'w').write(asm['text'])
             v = vrun.run_verus(gpath, args)
             fails, tool = classify(v['diags'], asm)
